@@ -71,7 +71,13 @@ func (b *buffer) get(v wireType) {
 	if b.err = v.UnmarshalBinary(b.data[b.i:]); b.err != nil {
 		return
 	}
-	b.i += v.width()
+	n := v.width()
+	if b.i+n > len(b.data) {
+		// the width of a value kept from before can exceed what was read
+		b.err = ErrMissingData
+		return
+	}
+	b.i += n
 }
 
 func (b *buffer) atEnd() bool {
